@@ -34,8 +34,13 @@ import (
 	"github.com/anyproto/any-sync/util/cidutil"
 	"github.com/anyproto/any-sync/util/crypto"
 
+	"verif/sim/core"
 	"verif/sim/simlib"
 )
+
+func somePerm(s *core.Src, n int) list.AclPermissions {
+	return []list.AclPermissions{list.AclPermissionsReader, list.AclPermissionsWriter, list.AclPermissionsAdmin}[s.Choose("perm", n)]
+}
 
 // ---- ACL ---------------------------------------------------------------------------------------------------------
 
@@ -87,20 +92,22 @@ func (t *aclTarget) honest() {
 			panic(fmt.Sprintf("harness: honest ACL record construction failed: %v", p))
 		}
 	}()
-	switch s.Weighted("acl-honest", []int{3, 2, 2, 2, 2 * minInt(len(t.invites), 1), 2 * minInt(len(t.reqs), 1), 2}) {
+	// (the real read-key-change builder ranges over Go maps, so its bytes differ from run to run and the wire
+	// mutator's choices with them: removals through the harness's sorted builder carry the same content)
+	switch s.Weighted("acl-honest", []int{3, 2, 2, 2, 2 * minInt(len(t.invites), 1), 2 * minInt(len(t.reqs), 1), 0}) {
 	case 0:
 		a := simlib.NewAccount(fmt.Sprintf("acc%d", len(t.extra)+1))
 		t.extra = append(t.extra, a)
-		sp.Add(list.AclPermissions(1+s.Choose("perm", 3)), a)
+		sp.Add(somePerm(s, 3), a)
 	case 1:
 		if len(t.extra) > 0 {
 			a := t.extra[s.Choose("reperm", len(t.extra))]
 			if !sp.Authority.AclState().Permissions(a.Pub()).NoPermissions() {
-				sp.ChangePerm(a, list.AclPermissions(1+s.Choose("perm", 3)))
+				sp.ChangePerm(a, somePerm(s, 3))
 			}
 		}
 	case 2:
-		if len(t.extra) > 0 {
+		if len(t.extra) > 0 && len(t.invites) == 0 { // the harness's deterministic removal builder does not rotate invite keys
 			a := t.extra[s.Choose("remove", len(t.extra))]
 			if !sp.Authority.AclState().Permissions(a.Pub()).NoPermissions() {
 				sp.Remove(a)
@@ -110,7 +117,7 @@ func (t *aclTarget) honest() {
 		var res list.InviteResult
 		var err error
 		if s.Flip("invite-anyone", 0.5) {
-			res, err = rb.BuildInviteAnyone(list.AclPermissions(1 + s.Choose("perm", 2)))
+			res, err = rb.BuildInviteAnyone(somePerm(s, 2))
 		} else {
 			res, err = rb.BuildInvite()
 		}
@@ -138,7 +145,7 @@ func (t *aclTarget) honest() {
 		}
 	case 5:
 		id := t.reqs[s.Choose("request", len(t.reqs))]
-		if raw, err := rb.BuildRequestAccept(list.RequestAcceptPayload{RequestRecordId: id, Permissions: list.AclPermissions(1 + s.Choose("perm", 2))}); err == nil {
+		if raw, err := rb.BuildRequestAccept(list.RequestAcceptPayload{RequestRecordId: id, Permissions: somePerm(s, 2)}); err == nil {
 			_, _ = sp.Accept(raw)
 		}
 	case 6:
@@ -333,11 +340,13 @@ type lyingRemote struct {
 	w     *world
 	calls int
 	mode  int
+	sizes []int
 }
 
 func (l *lyingRemote) Ranges(ctx context.Context, ranges []ldiff.Range, resBuf []ldiff.RangeResult) ([]ldiff.RangeResult, error) {
 	s := l.w.s
 	l.calls++
+	l.sizes = append(l.sizes, len(ranges))
 	if l.calls > 5000 {
 		return nil, errors.New("harness: the local side keeps asking (more than 5000 range requests for one diff)")
 	}
@@ -407,6 +416,7 @@ func (w *world) stepDiff() {
 		_, _, _, err := t.d.Diff(ctx, lr)
 		return err
 	})
+
 }
 
 // ---- handshake ------------------------------------------------------------------------------------------------------------
@@ -521,7 +531,7 @@ func (w *world) stepHandshake() {
 			}
 		} else {
 			tp := byte(s.Choose("type", 5))
-			size := []uint32{0, 1, 7, 200 * 1024, 200*1024 + 1, 1 << 31, 1<<32 - 1}[s.Choose("size", 7)]
+			size := []uint32{0, 1, 7, 200 * 1024, 200*1024 + 1, 1 << 27, 1 << 29}[s.Choose("size", 7)]
 			f = make([]byte, 5, 5+16)
 			f[0] = tp
 			binary.LittleEndian.PutUint32(f[1:5], size)
@@ -711,7 +721,7 @@ func (w *world) stepEncoding() {
 	in, what := mutateRaw(s, honest)
 	if snappyOn && s.Flip("claimed-length", 0.4) {
 		// a snappy block starts with the decoded length as a varint
-		claimed := []uint64{1 << 20, 1 << 28, 1<<31 - 1, 1<<32 - 1}[s.Choose("claimed", 4)]
+		claimed := []uint64{1 << 20, 1 << 26, 1 << 28, 1 << 29}[s.Choose("claimed", 4)] // enough to trip the bound without thrashing the machine when the guard is missing
 		in = binary.AppendUvarint(nil, claimed)
 		in = append(in, honest[minInt(len(honest), 1):minInt(len(honest), 1+s.Choose("tail", 12))]...)
 		what = fmt.Sprintf("block claiming %d decoded bytes", claimed)
